@@ -2,6 +2,9 @@
 
 C10 = which stream a request is written to (Establish: endpoint / TLS / SNI / ALPN / protocol of
 every connection type) + routing inside the pool over origins that differ in one component.
+C01 = response ownership and the reuse gate on pooled HTTP/1.1 connections (Pool) + stream
+isolation on a multiplexed HTTP/2 connection (H2Wire).
+C14 = at-most-once on the wire (Pool: retry only before anything was written) + GOAWAY rules (H2Wire).
 C16 = operation timeouts (Establish: every operation carries the right configured value) +
 pool timeout (Pool: PoolTimeout exactly at the deadline, only for a request without a
 connection; zero timeout succeeds when no waiting is needed)."""
@@ -9,21 +12,32 @@ from . import check_establish, check_pool
 from .checklib import Check
 
 
+PARTS = {
+    "C01": ("pool", "h2"),
+    "C10": ("establish", "pool"),
+    "C14": ("pool", "h2"),
+    "C16": ("establish", "pool"),
+}
+
+
 def run(prop, tier):
+    from . import check_h2
+
+    mods = {"pool": check_pool, "establish": check_establish, "h2": check_h2}
     chk = Check(prop, tier, "model_checking")
-    check_establish.run_into(chk, prop, tier)
-    est = dict(chk.coverage)
-    chk.coverage = {}
-    check_pool.run_into(chk, prop, tier)
-    pool = dict(chk.coverage)
+    covs = {}
+    for part in PARTS[prop]:
+        chk.coverage = {}
+        mods[part].run_into(chk, prop, tier)
+        covs[part] = dict(chk.coverage)
     cov = {}
     for k in ("states", "transitions", "evaluations", "distinct_nontrivial", "traces_validated_against_impl", "traces_rejected"):
-        cov[k] = est.get(k, 0) + pool.get(k, 0)
-    cov["rule"] = "operation logs (Establish part): " + est.get("rule", "") + " | pool executions (Pool part): " + pool.get("rule", "")
-    cov["samples"] = est.get("samples", [])[:2] + pool.get("samples", [])[:2]
-    cov["establish_part"] = {k: v for k, v in est.items() if k != "samples"}
-    cov["pool_part"] = {k: v for k, v in pool.items() if k != "samples"}
-    cov["checker_cmd"] = est.get("checker_cmd", "") + " ; " + pool.get("checker_cmd", "")
-    cov["trusted_base"] = sorted(set(est.get("trusted_base", []) + pool.get("trusted_base", [])))
+        cov[k] = sum(c.get(k, 0) for c in covs.values())
+    cov["rule"] = " | ".join(f"{p} part: " + c.get("rule", "") for p, c in covs.items())
+    cov["samples"] = [s for c in covs.values() for s in c.get("samples", [])[:2]]
+    for p, c in covs.items():
+        cov[p + "_part"] = {k: v for k, v in c.items() if k != "samples"}
+    cov["checker_cmd"] = " ; ".join(c.get("checker_cmd", "") for c in covs.values())
+    cov["trusted_base"] = sorted({x for c in covs.values() for x in c.get("trusted_base", [])})
     chk.coverage = cov
     return chk.finish()
